@@ -18,6 +18,55 @@ CHECKS = {
         note="Signature primitives and SHA3 are trusted; >6 tokens only sampled (24-token recorded histories)."),
 }
 
+
+CHECKS.update({
+    "C01": dict(
+        category="model_checking", design_ref="DESIGN.md section 4, C01",
+        technique="TLA+ spec Auth.tla (signed datagrams, 13 mutation actions, hand-written table of authenticated message ids) "
+                  "model-checked by TLC; real captures of every authenticated id of every overlay mutated and delivered to the "
+                  "production receive path; every delivery validated by TLC against AuthTrace.tla",
+        text="TLC exhausts the abstract mutation space; every mutation class is applied at every byte position of real captured "
+             "datagrams of all eight shipped overlay classes and TLC judges each observed handler entry / verified-peer delta "
+             "against the spec with an independent signature oracle.",
+        note="Signature primitives of ipv8_rust_tunnels trusted; mutations are the listed finite family over real captures."),
+    "C04": dict(
+        category="model_checking", design_ref="DESIGN.md section 4, Onion.tla + C04",
+        technique="TLA+ spec Onion.tla (symbolic layered AEAD, one action per tunnel handler/timer) model-checked by TLC with "
+                  "tamper/splice/inject/header adversary; real TunnelCommunity nodes stepped action by action, layer depth "
+                  "measured on real ciphertext with real keys, every recorded execution validated by TLC (OnionTrace.tla)",
+        text="TLC checks ExitIntegrity, ReturnIntegrity, LayerDepth, NoRepeatOnLinks on the spec exhaustively (3 hops, 1 attack "
+             "step; 1-2 hops, 2 steps in thorough) and on every recorded execution of the real nodes, including runs that alter "
+             "every header byte and sampled (thorough: every) body byte of in-flight cells on every link in both directions.",
+        note="AEAD/HKDF/X25519 idealised (Dolev-Yao); PythonCryptoEndpoint only; e2e circuits and test cells not driven."),
+    "C06": dict(
+        category="model_checking", design_ref="DESIGN.md section 4, C06",
+        technique="TLA+ specs ExitClassifier.tla / ExitPolicy.tla model-checked by TLC; TLC enumerates header-byte domains and "
+                  "computes expected classifications compared with DataChecker/is_allowed; real exit sockets with recording "
+                  "transports traced and validated by TLC (ExitPolicyTrace.tla)",
+        text="Exhaustive over the header bytes the classifier inspects (TLC computes the expected verdicts), model checking of "
+             "the exit-socket life cycle, and TLC-validated traces of the real emission path in both directions for every "
+             "payload class x destination kind x source x socket state.",
+        note="Dropping allowed traffic is not a violation (safety reading); a domain resolving to 0.0.0.0 is outside the property."),
+    "C10": dict(
+        category="model_checking", design_ref="DESIGN.md section 4, C10",
+        technique="TLA+ spec RequestCache.tla (identifier table, asyncio task states, TaskManager tracking) model-checked by TLC; "
+                  "TLC state graph / simulate behaviours replayed on the real RequestCache under a single-stepped event loop; "
+                  "recorded schedules validated by TLC (RequestCacheTrace.tla)",
+        text="TLC exhausts all interleavings of add/pop/timer fire/task run/passthrough/clear/shutdown for <=3 (thorough 4) caches; "
+             "every edge of the 2-cache graph and simulated 3/4-cache behaviours are executed on the real code with pops/adds "
+             "nested in on_timeout; larger random populations are validated as traces.",
+        note="Single event-loop thread; ready handles may run in any order in the spec (superset of asyncio FIFO)."),
+    "C19": dict(
+        category="fault_enumeration", design_ref="DESIGN.md section 4, C19",
+        technique="TLA+ spec CrashDb.tla (sqlite durable/working image, statement-level program layer) model-checked by TLC; "
+                  "a child process running the real identity/attestation databases is SIGKILLed at every statement/commit/"
+                  "return boundary, a fresh process reopens; event logs + observed rows validated by TLC (CrashDbTrace.tla)",
+        text="Every crash point of the scripted workloads is enumerated against the real code and the resulting trace is "
+             "judged by TLC (AckedDurable, NoPartialRecord, ReopenOk, PseudonymVerifies); TLC also explores all crash "
+             "placements of <=3 (thorough 4) record workloads on the spec.",
+        note="sqlite WAL atomicity/durability under process kill is trusted; kills land between statements, not inside a write."),
+})
+
 PENDING_REASON = "check not built yet in this round (planned, see DESIGN.md section 9); no claim is made"
 
 
